@@ -156,6 +156,7 @@ def run_duplex(cfg):
         await asyncio.gather(writer(), reader())
         info["events_end"] = len(rec.events)
         info["wpending"] = t._write_bio.pending
+        info["peer_got_at_end"] = bytes(peer.plain_in)
         try:
             await t.aclose()
         except BaseException:
@@ -226,6 +227,8 @@ def check_run(cfg, rec, peer, info, events):
         problems.append("plaintext read by the peer is not a prefix of the plaintext written through the transport")
     if not failing and not info["deadlock"] and peer_got != sent:
         problems.append("the peer did not receive exactly the plaintext of the completed send calls")
+    if not failing and not info["deadlock"] and "peer_got_at_end" in info and info["peer_got_at_end"] != sent:
+        problems.append("send_all returned although its plaintext had not reached the peer (ciphertext left in the outgoing BIO)")
     if MARKER in bytes(rec.cipher_out):
         problems.append("plaintext marker found in the bytes handed to the wrapped transport (sent unencrypted)")
     if any(ev[0] == "send" and not ev[3] for ev in events):
